@@ -159,8 +159,17 @@ class C18Run(object):
             firsts = [e.split()[0] for e in effective]
         if api == 'tor-stream-via':
             return self.part_a_tor(effective, firsts)
-        k = ch.weighted([3, 3, 3], 'req')
-        if k == 0:
+        k = ch.weighted([3, 3, 3, 1], 'req')
+        numeric = [f.rsplit(':', 1)[-1] for f in firsts if f.rsplit(':', 1)[-1].isdigit()]
+        if k == 3 and not numeric:
+            k = 2
+        if k == 3:
+            # a port Tor does not have, whose digits are the tail of one it has (53 next to 9053)
+            requested = ch.pick(numeric, 'reqtailof')[-2:].lstrip('0') or '7'
+            if requested in firsts or requested in numeric:
+                requested = '39999'
+            sim.probe('requested-absent-tail-of-a-configured-port')
+        elif k == 0:
             requested = None
             sim.probe('requested-none')
         elif k == 1:
